@@ -15,13 +15,15 @@ MODULES = {
     "C16": ["Spydr.IO.Props.C16"],
 }
 THEOREMS = {
-    "C15": ["Spydr.IO.read_policy_restored", "Spydr.IO.read_outcome", "Spydr.IO.unrepaired_leaks",
+    "C15": ["Spydr.IO.read_policy_restored_switching", "Spydr.IO.read_policy_restored", "Spydr.IO.read_outcome", "Spydr.IO.unrepaired_leaks",
             "Spydr.IO.run_policy_invariant", "Spydr.IO.trajectory_constant", "Spydr.IO.fresh_process",
             "Spydr.IO.parses_invisible",
-            "Spydr.IO.resolved_declared", "Spydr.IO.resolve_complete", "Spydr.IO.dangling_rejected"],
+            "Spydr.IO.resolved_declared", "Spydr.IO.resolve_complete", "Spydr.IO.out_of_scope_rejected",
+            "Spydr.IO.wellScoped_accepted", "Spydr.IO.resolve_iff_wellScoped", "Spydr.IO.resolution_unique",
+            "Spydr.IO.dangling_rejected"],
     "C16": ["Spydr.IO.toposort_ok", "Spydr.IO.toposort_finishes", "Spydr.IO.toposort_total", "Spydr.IO.toposort_fixpoint", "Spydr.IO.toposort_idem",
             "Spydr.IO.toposort_fuel_irrelevant", "Spydr.IO.topoOrderB_iff",
-            "Spydr.IO.edifify_documented_only", "Spydr.IO.edifify_finishes", "Spydr.IO.edifify_idem",
+            "Spydr.IO.edifify_documented_only", "Spydr.IO.edifify_keeps_existing", "Spydr.IO.edifify_finishes", "Spydr.IO.edifify_idem",
             "Spydr.IO.compose_repeatable", "Spydr.IO.pure_writer_unchanged", "Spydr.IO.docEqB_sound"],
 }
 
